@@ -406,6 +406,27 @@ def _shared_state(ctx, prog, R):
                 ctx.check(ok, fn, node, "exec into module globals is re-run before every eval in the same call (value-neutral across instances)", "exec writes module-level state that a later evaluation can observe from another instance's load", construct=f"exec in {fn.short}")
 
 
+    # direct writes into the module namespace
+    for fn in prog.functions():
+        gnames = set()
+        for t, v, s, k in iter_stores(fn.node):
+            if isinstance(t, ast.Name) and isinstance(v, ast.Call) and isinstance(v.func, ast.Name) and v.func.id in ("globals", "vars"):
+                gnames.add(t.id)
+        for node in ast.walk(fn.node):
+            tgt = None
+            if isinstance(node, ast.Call) and isinstance(node.func, ast.Attribute) and node.func.attr in MUTATORS:
+                tgt = node.func.value
+            elif isinstance(node, (ast.Assign, ast.AugAssign)):
+                for t in (node.targets if isinstance(node, ast.Assign) else [node.target]):
+                    if isinstance(t, ast.Subscript):
+                        tgt = t.value
+            if tgt is None:
+                continue
+            is_g = (isinstance(tgt, ast.Name) and tgt.id in gnames) or (isinstance(tgt, ast.Call) and isinstance(tgt.func, ast.Name) and tgt.func.id in ("globals", "vars"))
+            if is_g:
+                ctx.fail(fn, node, "the module namespace is written directly (globals()): the binding survives into later instances and is not re-initialised per load", construct=f"write into globals() in {fn.short}")
+
+
 def _enclosing_loop(prog, node):
     for p in prog.ancestors(node):
         if isinstance(p, (ast.For, ast.While)):
